@@ -160,12 +160,15 @@ def clash (k : String) (live : List Tun) (t : Tun) : Bool :=
 
 /-- Expected single forward for a frame from `(p,i)` on a live tunnel; `none` = no live tunnel. -/
 def expectFwd (s : SpecSt) (k : String) (p i : Nat) (allowUp : Bool) : Option (Nat × Nat) :=
-  match s.live.find? (legUp k p i) with
-  | some t => if allowUp then some (t.downPeer, t.downId) else none
-  | none =>
+  let viaDown : Option (Nat × Nat) :=
     match s.live.find? (legDown k p i) with
     | some t => some (t.upPeer, t.upId)
     | none => none
+  if allowUp then
+    match s.live.find? (legUp k p i) with
+    | some t => some (t.downPeer, t.downId)
+    | none => viaDown
+  else viaDown   -- OPEN_ACK / OPEN_ERR only ever travel upstream
 
 /-- Failures in a case in which two live tunnels shared a bare stream id carry the signature of the
     known finding (`c16-collision-…`); the same failure without any collision is a plain violation. -/
